@@ -993,6 +993,11 @@ def wire_dir(d, num):
             return [num, Atom({'ChooseDirective': 'choose', 'WhenDirective': 'when', 'StripDirective': 'unwrap'}[name]), e]
         if name == 'OtherwiseDirective':
             return [num, Atom('otherwise')]
+        if name == 'MatchDirective':
+            import re as _re
+            if _re.match(r'^[a-z]+$', d.path.source) and set(d.hints) <= {'match_once'}:
+                return [num, Atom('match'), d.path.source, proto.B('match_once' in d.hints)]
+            return other
         if name == 'DefDirective':
             if d.star_args is not None or d.dstar_args is not None:
                 return other
@@ -1140,7 +1145,8 @@ def twin_image(tspec):
 def wire_ctx(ctxt):
     frames = [[[str(k), wire_val(f[k], str(k))] for k in f] for f in ctxt.frames]
     choice = [[proto.B(bool(c[0])), proto.B(bool(c[1])), wire_val(c[2])] for c in reversed(ctxt._choice_stack)]
-    return [frames, choice]
+    mts = [[mt[1].source, proto.B('match_once' in mt[3])] for mt in ctxt._match_templates]
+    return [frames, choice, mts]
 
 
 def changed_cells(a, b):
